@@ -133,14 +133,15 @@ def run_keys(case):
     kw = {k: dec(v) for k, v in case['keys'].items()}
     if case.get('scale') is not None:
         kw['scale'] = dec_scale(case['scale'])
-    e = event(kw)
+    set_forms(case)
+    e = make_event(kw)
     vals = []
     for k in case['ask']:
         try:
             vals.append(enc(e(k)))
         except Exception as ex:
             vals.append(['E', type(ex).__name__])
-    return {'vals': vals, 'tables': kernel_points(case.get('points', {}))}
+    return {'vals': vals, 'tables': kernel_points(case.get('points', {})), 'forms': list(FORMS['used'])}
 
 
 def run_scale(case):
@@ -148,20 +149,95 @@ def run_scale(case):
     return {'octave_ratio': fr(s.tuning.octave_ratio), 'spo': fr(s.tuning.spo), 'name': s.tuning.name}
 
 
+# ---- alternative entry points: every builder / argument form must denote what the constructor form denotes -----------
+import random as _random
+import collections as _collections
+FORMS = {'rng': None, 'used': []}
+
+
+def set_forms(case):
+    seed = case.get('form_seed')
+    FORMS['rng'] = None if seed is None else _random.Random(seed)
+    FORMS['used'] = []
+
+
+def pick(what, options):
+    """options[0] is the constructor form; others are chosen only when the case carries a form_seed"""
+    r = FORMS['rng']
+    o = options[0] if r is None else r.choice(options)
+    if o != options[0]:
+        FORMS['used'].append('%s:%s' % (what, o))
+    return o
+
+
+def mapping_form(d):
+    f = pick('mapping', ['dict', 'pairs', 'pairs-iterator', 'ordered-dict'])
+    if f == 'pairs': return list(d.items())
+    if f == 'pairs-iterator': return iter(list(d.items()))
+    if f == 'ordered-dict': return _collections.OrderedDict(d)
+    return d
+
+
+def make_event(kw):
+    f = pick('event', ['dict', 'kwargs', 'dict+kwargs', 'overridden', 'copy', 'event-of-event'])
+    if f == 'kwargs': return event(**kw)
+    if f == 'dict+kwargs':
+        ks = list(kw)
+        a, b = {k: kw[k] for k in ks[::2]}, {k: kw[k] for k in ks[1::2]}
+        return event(a, **b)
+    if f == 'overridden':      # keyword arguments override the dictionary
+        wrong = {k: 12345 for k in list(kw)[:2] if k not in ('scale', 'instrument', 'msg_params')}
+        return event({**kw, **wrong}, **{k: kw[k] for k in wrong})
+    if f == 'copy': return event(kw).copy()
+    if f == 'event-of-event': return event(event(kw))
+    return event(kw)
+
+
+def make_chain(ps):
+    f = pick('chain', ['ctor', 'chain()', 'chain()-late', 'nested-left']) if len(ps) >= 2 else 'ctor'
+    if f == 'chain()':                     # Pchain(A).chain(B).chain(C)
+        c = Pchain(ps[0])
+        for p in ps[1:]:
+            c = c.chain(p)
+        return c
+    if f == 'chain()-late':                # Pchain(A, B, ...).chain(last)
+        return Pchain(*ps[:-1]).chain(ps[-1])
+    if f == 'nested-left' and len(ps) >= 3:
+        return Pchain(Pchain(*ps[:-1]), ps[-1])
+    return Pchain(*ps)
+
+
+def start_player(pat, clock, proto):
+    f = pick('play', ['Pattern.play', 'EventStreamPlayer', 'base.play'])
+    if f == 'EventStreamPlayer':
+        from sc3.seq.eventstream import EventStreamPlayer
+        from sc3.base.stream import stream as _stream
+        pl = EventStreamPlayer(_stream(pat), proto or None)
+        pl.play(clock, None)
+        return pl
+    if f == 'base.play':
+        from sc3.base.play import play as _play
+        return _play(pat, clock, None, proto or None)
+    return pat.play(clock, None, proto or None)
+
+
 def build(tree):
     k = tree[0]
 
     def kvs(l):
-        return {key: (Pseq([dec(v) for v in vs[1]]) if vs[0] == 'seq' else dec(vs[1])) for key, vs in l}
+        return mapping_form({key: (Pseq([dec(v) for v in vs[1]]) if vs[0] == 'seq' else dec(vs[1])) for key, vs in l})
     if k == 'bind': return Pbind(kvs(tree[1]))
     if k == 'mono': return Pmono(tree[1], kvs(tree[2]), articulate=bool(tree[3]) if len(tree) > 3 else False)
-    if k == 'chain': return Pchain(*[build(t) for t in tree[1]])
+    if k == 'chain': return make_chain([build(t) for t in tree[1]])
     if k == 'par': return Ppar(*[build(t) for t in tree[1]])
     if k == 'delta': return Pdelta(dec(tree[1]), build(tree[2]))
     if k == 'dur': return Pdur(dec(tree[1]), build(tree[2]))
     if k == 'durq':      # Pdur(dur, pattern, tolerance, quant)
         return Pdur(dec(tree[1]), build(tree[4]), dec(tree[2]), None if tree[3] is None else dec(tree[3]))
-    if k == 'seq': return Pseq([build(t) for t in tree[1]], int(tree[2]), int(tree[3]))
+    if k == 'seq':
+        items = [build(t) for t in tree[1]]
+        if pick('list', ['list', 'tuple']) == 'tuple': items = tuple(items)
+        return Pseq(items, int(tree[2]), int(tree[3]))
     if k == 'pn': return Pn(build(tree[1]), int(tree[2]))
     raise ValueError(tree)
 
@@ -189,6 +265,7 @@ def run_pat(case):
     proto = {k: dec(v) for k, v in case.get('proto', {}).items()}
     if case.get('proto_event'):
         proto = event(proto)
+    set_forms(case)
     pat = build(case['pat'])
     start = float(Fraction(case.get('start', '0/1')))
     use_tempo = case.get("clock") == "tempo"
@@ -200,7 +277,7 @@ def run_pat(case):
     def starter():
         if start > 0:
             yield start
-        pl = pat.play(TempoClock(1) if use_tempo else None, None, proto or None)
+        pl = start_player(pat, TempoClock(1) if use_tempo else None, proto)
         if case.get('twice') is not None:          # the same pattern object played by a second player
             yield float(Fraction(case['twice']))
             pat.play(TempoClock(1) if use_tempo else None, None, proto or None)
@@ -227,7 +304,7 @@ def run_pat(case):
             if m[0] == '/c_set':
                 end = fr(row[0])
     proto_after = repr(sorted(proto.items(), key=lambda kv: kv[0])) if isinstance(proto, dict) else None
-    out = {'msgs': msgs, 'end': end, 'errors': list(ERRORS.records)[:3], 'proto_unchanged': proto_before == proto_after,
+    out = {'msgs': msgs, 'end': end, 'errors': list(ERRORS.records)[:3], 'forms': list(FORMS['used']), 'proto_unchanged': proto_before == proto_after,
            'tables': kernel_points(case.get('points', {}))}
     main.reset()
     srv.latency = 0
@@ -241,7 +318,8 @@ def run_replay(case):
     srv = Server.default
     srv.latency = float(Fraction(case.get('latency', '0/1')))
     start = float(Fraction(case.get('start', '0/1')))
-    box = [event({k: dec(v) for k, v in case['keys'].items()})]
+    set_forms(case)
+    box = [make_event({k: dec(v) for k, v in case['keys'].items()})]
 
     @routine
     def r():
@@ -281,6 +359,7 @@ def run_alias(case):
     """pull the events of a stream by hand (as the player does: stream.next(proto.copy())), once leaving them alone
     and once mutating every event (and the input dict) after it was yielded; later events must not change"""
     main.reset()
+    set_forms(case)
     proto = {k: dec(v) for k, v in case.get('proto', {}).items()}
     res = {}
     input_changed = None
